@@ -633,7 +633,8 @@ func (env *c08Env) run(c *c08Case) {
 	}
 	signed, err := c08RawFields(hdr)
 	if err != nil {
-		env.t.Fatal(err)
+		out.Violation("C08/signed-header-unwritable", op, err.Error())
+		return
 	}
 	sigField := signed[0]
 	for i := range presign {
@@ -672,6 +673,14 @@ func (env *c08Env) run(c *c08Case) {
 		if len(l) > maxLine {
 			maxLine = len(l)
 		}
+	}
+	if maxLine > 2000 && c.mode != "m" {
+		// Outside the property (the message never arrives): go-msgauth does not fold the h= tag, so a
+		// header with some 130 occurrences of signed fields yields a signature line that a go-smtp
+		// next hop (MaxLineLength 2000; maddy's own endpoint: 4000) refuses.  Recorded, not transported.
+		out.Stat("chain.skipped.sig-line>2000")
+		out.Note(fmt.Sprintf("signature line of %d octets (h= with %d names) would be refused by the scripted next hop", maxLine, len(hkeys)))
+		return
 	}
 	if maxLine > 998 {
 		out.Stat("sig.line>998")
